@@ -178,8 +178,11 @@ pub fn concurrent(args: &[String]) {
     let trues = Arc::new(std::sync::atomic::AtomicUsize::new(0));
     let offers: Arc<Vec<[usize; 4]>> = Arc::new((0..rounds).map(|_| [rng.gen_range(1..=maxid), rng.gen_range(1..=maxid), rng.gen_range(1..=maxid), rng.gen_range(1..=maxid)]).collect());
     let done = Arc::new(std::sync::atomic::AtomicUsize::new(0));
+    // who was told TRUE in the current round (bit t)
+    let told = Arc::new(std::sync::atomic::AtomicUsize::new(0));
     let hs: Vec<_> = (0..4).map(|t| {
         let (cell, start, trues, offers, ids, done) = (cell.clone(), start.clone(), trues.clone(), offers.clone(), ids.clone(), done.clone());
+        let told = told.clone();
         std::thread::spawn(move || {
             for r in 0..offers.len() {
                 while start.load(std::sync::atomic::Ordering::Acquire) < r + 1 {
@@ -187,6 +190,7 @@ pub fn concurrent(args: &[String]) {
                 }
                 if cell.update(ids[offers[r][t]]) {
                     trues.fetch_add(1, std::sync::atomic::Ordering::SeqCst);
+                    told.fetch_or(1 << t, std::sync::atomic::Ordering::SeqCst);
                 }
                 done.fetch_add(1, std::sync::atomic::Ordering::SeqCst);
             }
@@ -195,6 +199,7 @@ pub fn concurrent(args: &[String]) {
     for r in 0..rounds {
         cell.store(ids[0]);
         trues.store(0, std::sync::atomic::Ordering::SeqCst);
+        told.store(0, std::sync::atomic::Ordering::SeqCst);
         done.store(0, std::sync::atomic::Ordering::SeqCst);
         start.store(r + 1, std::sync::atomic::Ordering::Release);
         while done.load(std::sync::atomic::Ordering::SeqCst) < 4 {
@@ -211,6 +216,13 @@ pub fn concurrent(args: &[String]) {
             if bad.len() < 5 {
                 bad.push(json!({"offers":offers[r],"final":fin,"trues":t}));
             }
+        }
+        // the growth to the maximum happens exactly once, by a caller that offered the maximum: exactly one of
+        // those callers is told TRUE (a growth is neither lost nor reported twice)
+        let bits = told.load(std::sync::atomic::Ordering::SeqCst);
+        let max_true = (0..4).filter(|t| offers[r][*t] == max && bits & (1 << t) != 0).count();
+        if max_true != 1 && bad.len() < 5 {
+            bad.push(json!({"offers":offers[r],"final":fin,"trues":t,"told_true_among_those_offering_the_maximum":max_true}));
         }
         // same id offered by all: exactly one TRUE
         if distinct.len() == 1 && t != 1 && bad.len() < 5 {
